@@ -136,147 +136,7 @@ func runC12(c *Ctx) {
 			R.Decide(ok, "result-fresh", fi.Name, "make", c.pos(fi), "make(count) filled with the value", why)
 		}
 	}
-	// ---- Fill
-	if fi := c.fn("fill-doubling", "slices.Fill"); fi != nil {
-		if ps := c.paths("fill-doubling", fi); ps != nil {
-			s, v := paramOf(fi, 0), paramOf(fi, 1)
-			ok, why := true, ""
-			loops := findLoops(ps)
-			if len(loops) != 1 || len(loops[0].Phis) != 1 {
-				ok, why = false, "expected one loop with one induction variable"
-			} else {
-				li := loops[0]
-				phi := li.Phis[0]
-				lv := li.LV[phi]
-				init := li.Init[phi]
-				if init == nil || !init.IsConst("1") {
-					ok, why = false, "the prefix length does not start at 1"
-				}
-				for _, p := range ps {
-					inLoop := p.LoopIn[li.Hdr] != nil
-					if !inLoop {
-						// the empty row
-						emp := false
-						lenS := &Term{Op: "builtin", Sym: "len", Args: []*Term{s}}
-						for _, cd := range p.Conds {
-							if pl, kind, isInt := cd.Rel().IntNorm(); isInt {
-								// len == 0, or len < 1 (a length is never negative)
-								if kind == "=" && pl.Equal(canonSign(ToPoly(lenS))) {
-									emp = true
-								}
-								if kind == ">" && pl.Equal(polyConst(1).Add(ToPoly(lenS), -1)) {
-									emp = true
-								}
-							}
-						}
-						if !emp || len(eventsOf(p, func(e *Event) bool { return e.Kind == "store" || (e.Kind == "call" && e.Name == "builtin.copy") })) != 0 {
-							ok, why = false, "a path avoids the loop without the slice being empty"
-						}
-						continue
-					}
-					// a path that knows the slice to be empty has nothing to fill (the loop test fails at once)
-					{
-						lenS := &Term{Op: "builtin", Sym: "len", Args: []*Term{s}}
-						empty := false
-						for _, cd := range p.Conds {
-							if pl, kind, isInt := cd.Rel().IntNorm(); isInt {
-								if kind == "=" && pl.Equal(canonSign(ToPoly(lenS))) {
-									empty = true
-								}
-								if kind == ">" && pl.Equal(polyConst(1).Add(ToPoly(lenS), -1)) {
-									empty = true
-								}
-							}
-						}
-						if empty && p.End != EndLoopBack && len(eventsOf(p, func(e *Event) bool { return e.Kind == "store" || (e.Kind == "call" && e.Name == "builtin.copy") })) == 0 {
-							continue
-						}
-						// an iteration on an empty slice is infeasible: the prefix length starts at 1 and only grows,
-						// and the iteration needs prefix < len <= 0
-						if empty && p.End == EndLoopBack && init != nil && init.IsConst("1") {
-							infeasible := false
-							for _, cd := range p.Conds {
-								if pl, kind, isInt := cd.Rel().IntNorm(); isInt && kind == ">" && pl.Equal(ToPoly(lenS).Add(ToPoly(lv), -1)) {
-									infeasible = true
-								}
-							}
-							if infeasible {
-								continue
-							}
-						}
-					}
-					// element 0 written before the loop
-					first := false
-					for i := 0; i < p.LoopAt[li.Hdr] && i < len(p.Events); i++ {
-						e := &p.Events[i]
-						if e.Kind == "store" && e.Addr.Op == "iaddr" && e.Addr.Args[0].Key() == s.Key() && e.Addr.Args[1].IsConst("0") && e.Val.Key() == v.Key() {
-							first = true
-						}
-					}
-					if !first {
-						ok, why = false, "element 0 is not set to the value before doubling"
-					}
-					// continue condition i < len(s)
-					var cont *Rel
-					for _, cd := range p.Conds {
-						if cd.T.ContainsKey(lv.Key()) {
-							r := cd.Rel()
-							cont = &r
-						}
-					}
-					if cont == nil {
-						ok, why = false, "no loop condition"
-						continue
-					}
-					if p.End == EndLoopBack {
-						lenS := &Term{Op: "builtin", Sym: "len", Args: []*Term{s}}
-						pl, kind, isInt := cont.IntNorm()
-						if !(isInt && kind == ">" && pl.Equal(ToPoly(lenS).Add(ToPoly(lv), -1))) {
-							ok, why = false, "the loop does not run while i < len(slice): "+cont.String()+" (a different bound leaves the tail unset for some lengths)"
-						}
-						var cp *Event
-						n := 0
-						for i := p.LoopAt[li.Hdr]; i < len(p.Events); i++ {
-							e := &p.Events[i]
-							if e.Kind == "call" && e.Name == "builtin.copy" {
-								cp = e
-								n++
-							}
-							if e.Kind == "store" {
-								ok, why = false, "stores inside the doubling loop"
-							}
-						}
-						if n != 1 {
-							ok, why = false, "not exactly one copy per iteration"
-						} else {
-							d, src := cp.Args[0], cp.Args[1]
-							good := d.Op == "slice" && d.Args[0].Key() == s.Key() && d.Args[1].Key() == lv.Key() && d.Args[2].Op == "none" &&
-								src.Op == "slice" && src.Args[0].Key() == s.Key() && (src.Args[1].Op == "none" || src.Args[1].IsConst("0")) && src.Args[2].Key() == lv.Key()
-							if !good {
-								ok, why = false, "the iteration is not copy(s[i:], s[:i])"
-							}
-						}
-						nx := p.Next[phi]
-						if !ToPoly(nx).Equal(ToPoly(lv).Add(ToPoly(lv), 1)) {
-							ok, why = false, "i is not doubled: "+nx.String()
-						}
-					} else {
-						// exit: nothing after the loop
-						for i := p.LoopAt[li.Hdr]; i < len(p.Events); i++ {
-							e := &p.Events[i]
-							if e.Kind == "store" || (e.Kind == "call" && e.Name == "builtin.copy") {
-								ok, why = false, "work after the loop: the table 'doubling until i >= len' no longer describes the function"
-							}
-						}
-					}
-				}
-			}
-			o := R.Decide(ok, "fill-doubling", fi.Name, "table", c.pos(fi), "empty: return; s[0]=v; i=1; while i<len: copy(s[i:], s[:i]); i+=i", why)
-			if !ok {
-				o.Breaks = "some lengths leave elements unset"
-			}
-		}
-	}
+	c12Fill(c, "fill-doubling")
 	// ---- Reverse
 	if fi := c.fn("reverse-walk", "slices.Reverse"); fi != nil {
 		if ps := c.paths("reverse-walk", fi); ps != nil {
@@ -596,6 +456,151 @@ func c12Splice(c *Ctx, rule string, withMulti bool) {
 		o := R.Decide(ok, rule, fi.Name, "splice", c.pos(fi), "copy(s[index:], s[index+r:]); s = s[:len-r]", why)
 		if !ok {
 			o.Breaks = "the wrong elements are dropped or the length shrinks by the wrong amount"
+		}
+	}
+}
+
+// c12Fill decides slices.Fill (exponential copy); C08 re-uses it, because New2DFilled and Array2D.Fill fill through it.
+func c12Fill(c *Ctx, rule string) {
+	R := c.R
+	if fi := c.fn(rule, "slices.Fill"); fi != nil {
+		if ps := c.paths(rule, fi); ps != nil {
+			s, v := paramOf(fi, 0), paramOf(fi, 1)
+			ok, why := true, ""
+			loops := findLoops(ps)
+			if len(loops) != 1 || len(loops[0].Phis) != 1 {
+				ok, why = false, "expected one loop with one induction variable"
+			} else {
+				li := loops[0]
+				phi := li.Phis[0]
+				lv := li.LV[phi]
+				init := li.Init[phi]
+				if init == nil || !init.IsConst("1") {
+					ok, why = false, "the prefix length does not start at 1"
+				}
+				for _, p := range ps {
+					inLoop := p.LoopIn[li.Hdr] != nil
+					if !inLoop {
+						// the empty row
+						emp := false
+						lenS := &Term{Op: "builtin", Sym: "len", Args: []*Term{s}}
+						for _, cd := range p.Conds {
+							if pl, kind, isInt := cd.Rel().IntNorm(); isInt {
+								// len == 0, or len < 1 (a length is never negative)
+								if kind == "=" && pl.Equal(canonSign(ToPoly(lenS))) {
+									emp = true
+								}
+								if kind == ">" && pl.Equal(polyConst(1).Add(ToPoly(lenS), -1)) {
+									emp = true
+								}
+							}
+						}
+						if !emp || len(eventsOf(p, func(e *Event) bool { return e.Kind == "store" || (e.Kind == "call" && e.Name == "builtin.copy") })) != 0 {
+							ok, why = false, "a path avoids the loop without the slice being empty"
+						}
+						continue
+					}
+					// a path that knows the slice to be empty has nothing to fill (the loop test fails at once)
+					{
+						lenS := &Term{Op: "builtin", Sym: "len", Args: []*Term{s}}
+						empty := false
+						for _, cd := range p.Conds {
+							if pl, kind, isInt := cd.Rel().IntNorm(); isInt {
+								if kind == "=" && pl.Equal(canonSign(ToPoly(lenS))) {
+									empty = true
+								}
+								if kind == ">" && pl.Equal(polyConst(1).Add(ToPoly(lenS), -1)) {
+									empty = true
+								}
+							}
+						}
+						if empty && p.End != EndLoopBack && len(eventsOf(p, func(e *Event) bool { return e.Kind == "store" || (e.Kind == "call" && e.Name == "builtin.copy") })) == 0 {
+							continue
+						}
+						// an iteration on an empty slice is infeasible: the prefix length starts at 1 and only grows,
+						// and the iteration needs prefix < len <= 0
+						if empty && p.End == EndLoopBack && init != nil && init.IsConst("1") {
+							infeasible := false
+							for _, cd := range p.Conds {
+								if pl, kind, isInt := cd.Rel().IntNorm(); isInt && kind == ">" && pl.Equal(ToPoly(lenS).Add(ToPoly(lv), -1)) {
+									infeasible = true
+								}
+							}
+							if infeasible {
+								continue
+							}
+						}
+					}
+					// element 0 written before the loop
+					first := false
+					for i := 0; i < p.LoopAt[li.Hdr] && i < len(p.Events); i++ {
+						e := &p.Events[i]
+						if e.Kind == "store" && e.Addr.Op == "iaddr" && e.Addr.Args[0].Key() == s.Key() && e.Addr.Args[1].IsConst("0") && e.Val.Key() == v.Key() {
+							first = true
+						}
+					}
+					if !first {
+						ok, why = false, "element 0 is not set to the value before doubling"
+					}
+					// continue condition i < len(s)
+					var cont *Rel
+					for _, cd := range p.Conds {
+						if cd.T.ContainsKey(lv.Key()) {
+							r := cd.Rel()
+							cont = &r
+						}
+					}
+					if cont == nil {
+						ok, why = false, "no loop condition"
+						continue
+					}
+					if p.End == EndLoopBack {
+						lenS := &Term{Op: "builtin", Sym: "len", Args: []*Term{s}}
+						pl, kind, isInt := cont.IntNorm()
+						if !(isInt && kind == ">" && pl.Equal(ToPoly(lenS).Add(ToPoly(lv), -1))) {
+							ok, why = false, "the loop does not run while i < len(slice): "+cont.String()+" (a different bound leaves the tail unset for some lengths)"
+						}
+						var cp *Event
+						n := 0
+						for i := p.LoopAt[li.Hdr]; i < len(p.Events); i++ {
+							e := &p.Events[i]
+							if e.Kind == "call" && e.Name == "builtin.copy" {
+								cp = e
+								n++
+							}
+							if e.Kind == "store" {
+								ok, why = false, "stores inside the doubling loop"
+							}
+						}
+						if n != 1 {
+							ok, why = false, "not exactly one copy per iteration"
+						} else {
+							d, src := cp.Args[0], cp.Args[1]
+							good := d.Op == "slice" && d.Args[0].Key() == s.Key() && d.Args[1].Key() == lv.Key() && d.Args[2].Op == "none" &&
+								src.Op == "slice" && src.Args[0].Key() == s.Key() && (src.Args[1].Op == "none" || src.Args[1].IsConst("0")) && src.Args[2].Key() == lv.Key()
+							if !good {
+								ok, why = false, "the iteration is not copy(s[i:], s[:i])"
+							}
+						}
+						nx := p.Next[phi]
+						if !ToPoly(nx).Equal(ToPoly(lv).Add(ToPoly(lv), 1)) {
+							ok, why = false, "i is not doubled: "+nx.String()
+						}
+					} else {
+						// exit: nothing after the loop
+						for i := p.LoopAt[li.Hdr]; i < len(p.Events); i++ {
+							e := &p.Events[i]
+							if e.Kind == "store" || (e.Kind == "call" && e.Name == "builtin.copy") {
+								ok, why = false, "work after the loop: the table 'doubling until i >= len' no longer describes the function"
+							}
+						}
+					}
+				}
+			}
+			o := R.Decide(ok, rule, fi.Name, "table", c.pos(fi), "empty: return; s[0]=v; i=1; while i<len: copy(s[i:], s[:i]); i+=i", why)
+			if !ok {
+				o.Breaks = "some lengths leave elements unset"
+			}
 		}
 	}
 }
